@@ -126,6 +126,35 @@ func RunOne(bc *ugo.Bytecode, rec bool, id int) (out string) {
 	return Outcome(ret, err, pv, g)
 }
 
+// StepLimit: cases whose solo runs need more instructions are not run concurrently (a
+// generated script may loop without end; the concurrent phase has no per-VM step hook).
+const StepLimit = 100000
+
+// Bounded reports whether the solo runs of all n VMs end within StepLimit instructions
+// (H1 trace hook, build tag verif; must not be called while other VMs run).
+func Bounded(bc *ugo.Bytecode, rec bool, n int) bool {
+	for id := 0; id < n; id++ {
+		vm := ugo.NewVM(bc).SetRecover(rec)
+		steps, over := 0, false
+		ugo.VerifTraceHook = func(fi, ip, sp, nh int, op byte) {
+			steps++
+			if steps == StepLimit {
+				over = true
+				vm.Abort()
+			}
+		}
+		func() {
+			defer func() { _ = recover() }()
+			_, _ = vm.Run(ugo.Map{}, Args(id)...)
+		}()
+		ugo.VerifTraceHook = nil
+		if over {
+			return false
+		}
+	}
+	return true
+}
+
 // Diff is a run whose result differs from the solo run with the same arguments.
 type Diff struct {
 	Family string `json:"family"`
